@@ -363,7 +363,7 @@ def normalize (sig : Sig) (wildOnBad : Bool) : SPat → Option Nat → Norm
     | .struct fs =>
       let r := normTuple sig wildOnBad ps (fs.map (fun f => f.2))
       -- fewer elements than fields: error + wildcards (main_checker.rs:1247-1256);
-      -- more elements: `ElementMissing` errors, nodes are pushed anyway (1236-1245)
+      -- more elements: `ElementMissing` errors, the surplus nodes are dropped (see `normTuple`)
       let pad := wilds (fs.length - ps.length)
       { pat := .struct none (r.1 ++ pad), err := r.2.1 || decide (ps.length ≠ fs.length), panic := r.2.2 }
     | _ => { pat := badDefault wildOnBad, err := true }     -- NotAStruct
@@ -393,9 +393,11 @@ def normalize (sig : Sig) (wildOnBad : Bool) : SPat → Option Nat → Norm
 def normTuple (sig : Sig) (wildOnBad : Bool) : List SPat → List Nat → List Pat × Bool × Bool
   | [], _ => ([], false, false)
   | p :: ps, [] =>
+    -- surplus element: checked against `any` for its diagnostics, but (since the fix 6443f12) it is
+    -- not pushed as a column of the abstract pattern (main_checker.rs:1226-1234, 1403-1414)
     let a := normalize sig wildOnBad p none
     let r := normTuple sig wildOnBad ps []
-    (a.pat :: r.1, true, a.panic || r.2.2)
+    (r.1, true, a.panic || r.2.2)
   | p :: ps, t :: ts =>
     let a := normalize sig wildOnBad p (some t)
     let r := normTuple sig wildOnBad ps ts
